@@ -44,10 +44,12 @@ def r15_const_table(u):
     return pre
 
 
-def r14_iter_any(elem_type, ensures):
-    """R14: S.iter().any(|x| P)  ->  slice_any(S, |x: &T| -> (b: bool) ensures ENS { P })
+def r14_iter_any(elem_type, ensures, label=None):
+    """R14: S.iter().any(|x| P)  ->  slice_any(S, |x: &T| -> (b: bool) ensures ENS { let b = { P }; assert(ENS); b })
     slice_any is a verified helper (prelude/slice_any.rs): result == "some element satisfies the closure's ensures".
-    ENS is the closure's ghost contract, checked by Verus against the real closure body P.  S must be a slice."""
+    ENS (`b == ...`) is the closure's ghost contract, checked by Verus against the real closure body P.  The ghost
+    `assert(ENS)` in front of the result makes a body that no longer meets ENS fail as a *named assertion* of the
+    enclosing function (the runner does not classify "unable to prove post-condition of closure").  S must be a slice."""
     def rule(u, key, text):
         n = 0
         while True:
@@ -66,7 +68,9 @@ def r14_iter_any(elem_type, ensures):
             mopen = i + 6
             mclose = match[mopen]
             param, body = _closure(text, toks, match, mopen)
-            new = 'slice_any(%s, |%s: &%s| -> (b: bool)\n\t\tensures %s\n\t%s)' % (recv, param, elem_type, ensures, _as_block(body))
+            mark = ' /*@L:%s*/' % label if label else ''
+            new = ('slice_any(%s, |%s: &%s| -> (b: bool)\n\t\tensures %s\n\t{\n\t\tlet b = %s;\n\t\tproof { assert(%s);%s }\n\t\tb\n\t})'
+                   % (recv, param, elem_type, ensures, _as_block(body), ensures, mark))
             text = text[:toks[rs].start] + new + text[toks[mclose].end:]
             u.rules['R14'] += 1
             n += 1
